@@ -20,6 +20,7 @@ import (
 	"github.com/ovrclk/akash/pubsub"
 	"github.com/ovrclk/akash/sdl"
 	"github.com/ovrclk/akash/util/runner"
+	"github.com/ovrclk/akash/util/verifhook"
 	"github.com/ovrclk/akash/validation"
 	dtypes "github.com/ovrclk/akash/x/deployment/types"
 	mtypes "github.com/ovrclk/akash/x/market/types"
@@ -138,6 +139,7 @@ loop:
 			stopch = m.stoptimer.C
 		}
 
+		verifhook.Emit("manifest.mgr.loop", m, runch != nil)
 		select {
 
 		case err := <-m.lc.ShutdownRequest():
